@@ -75,6 +75,8 @@ def main():
                     shutil.move(str(r), keep / r.name)
         finally:
             sh("git checkout -- .", cwd="/repo")
+            # the checks regenerate lean/SkfemVerif/Gen/* from the (changed) source: restore them from the clean tree
+            sh("PYTHONPATH=harness:/repo /venv/bin/python -m skv.gen", cwd=VERIF, timeout=1200)
     meta["check_results"] = results
     meta["alarm"] = [c for c, r in results.items() if isinstance(r, dict) and r.get("rc") != 0]
     (dst / "meta.json").write_text(json.dumps(meta, indent=1))
